@@ -311,6 +311,8 @@ func genC20(t *rapid.T) c20Case {
 			m := pick(t, "marker", []string{"</head", "<link", "<style", "<script", "</HEAD>", "<LiNk rel=x>", "<Style>", "<SCRIPT src=a>",
 				"</hea", "<lin", "<styl", "<scrip", "< link", "<\x00link", "</head</head", "<sCRIPT",
 				"<<script", "a<<LINK", "1<</HEAD", "<<<style", "\x1cscript", "\x1clink", "\x1cstyle", "<\x0fhead", "\x1c\x0fhead", "<\x0fHEAD", "<scr\x49pt", "<l\x09nk", "<SCR\u0130PT", "<scr\u0131pt",
+				// a marker is a marker wherever it stands
+				"<!-- <link rel=x href=old.css> -->", "<!--<script>", "<!doctype html <style", "<!-- </head --",
 				// ordinary tags that are no markers
 				"<html>", "<body>", "<BODY class=x>", "<!DOCTYPE html>", "<head>", "<div>", "</body>", "<html><body>", "<title>",
 				// the address of the content script, merely mentioned
